@@ -67,6 +67,8 @@ var Kinds = []Req{
 	// a handler that hands its context to a SECOND router whose handler panics; a handler that reports which router its
 	// context belongs to; a download of a 70 KB file through Context.FileContent (three copy rounds)
 	{"GET", "/sub/boom"}, {"GET", "/who"}, {"GET", "/file"},
+	// handlers that record an error of their own and read the error list back; a streaming handler (write, Flush, write)
+	{"GET", "/err/1"}, {"GET", "/err/2"}, {"GET", "/stream"},
 }
 
 var (
@@ -186,6 +188,21 @@ func Build(s Shape) *rux.Router {
 		Yield()
 		c.WriteString(fmt.Sprintf("[WHO router-is-the-serving-router=%v]", c.Router() == r))
 	})
+	r.GET("/err/{id}", func(c *rux.Context) {
+		Yield()
+		c.AddError(fmt.Errorf("error of request %s", c.Param("id")))
+		Yield()
+		c.WriteString(fmt.Sprintf("[ERR n=%d first=%v]", len(c.Errors), c.FirstError()))
+	})
+	r.GET("/stream", func(c *rux.Context) {
+		Yield()
+		c.WriteString("chunk1;")
+		if f, ok := c.Resp.(http.Flusher); ok {
+			f.Flush()
+		}
+		Yield()
+		c.WriteString("chunk2")
+	})
 	r.GET("/file", func(c *rux.Context) {
 		Yield()
 		c.FileContent(bigFile())
@@ -269,11 +286,13 @@ type Rec struct {
 	NWH    int
 	Body   []byte
 	Thread int
+	NFlush int
 }
 
 func NewRec() *Rec                  { return &Rec{H: http.Header{}} }
 func (w *Rec) Header() http.Header  { return w.H }
 func (w *Rec) WriteHeader(code int) { w.NWH++; w.Code = code }
+func (w *Rec) Flush()               { w.NFlush++ }
 func (w *Rec) Write(b []byte) (int, error) {
 	w.Body = append(w.Body, b...)
 	return len(b), nil
@@ -301,6 +320,9 @@ func Serve(r http.Handler, q Req) (obs string) {
 		obs = fmt.Sprintf("%d wh=%d allow=%q <%d bytes, crc32 %08x>", w.Code, w.NWH, w.H.Get("Allow"), len(w.Body), crc32.ChecksumIEEE(w.Body))
 	} else {
 		obs = fmt.Sprintf("%d wh=%d allow=%q %q", w.Code, w.NWH, w.H.Get("Allow"), w.Body)
+	}
+	if w.NFlush > 0 || q.Path == "/stream" {
+		obs += fmt.Sprintf(" flushed=%d", w.NFlush)
 	}
 	if cp, ok := kept.LoadAndDelete(req); ok {
 		// the request is over and its pooled context may already serve someone else: the copy must still read the same
